@@ -791,6 +791,14 @@ def run_into(chk: Check, pid: str, tier: str) -> None:
         chk.extra['sessions_under_python_O'] = len(ojobs)
         jobs = jobs + ojobs
         events = events + oevents
+        # ... and with other hash seeds (sets of cards iterated in other orders)
+        for hs in ('1', '4242'):
+            hjobs = [(f'H{hs}.' + t_, c_, k_, n_) for (t_, c_, k_, n_) in normal_jobs(r, 3 if quick else 40, 'h')
+                     if 'second' not in c_]
+            hevents = run_optimized('harness.table', 'run_job', hjobs, flags=(), env={'PYTHONHASHSEED': hs})
+            jobs = jobs + hjobs
+            events = events + hevents
+            chk.extra['sessions_under_hash_seed_' + hs] = len(hjobs)
     extra_events = [e.pop('second_event') for e in events if 'second_event' in e]
     for (tid, cfg, kind, comp), e in zip(jobs, events):
         chk.evaluations += 1
